@@ -105,6 +105,8 @@ def main(argv=None):
     ap.add_argument("--replay")
     ap.add_argument("--only", help="comma-separated lemma-name substrings")
     ap.add_argument("--no-evidence", action="store_true")
+    ap.add_argument("--max-wall", type=float, default=float(os.environ.get("VERIF_MAX_WALL", "0")),
+                    help="wall-clock cap in seconds (default: none for quick, 1500 for thorough): instances not started by then are reported NOT-RUN")
     a = ap.parse_args(argv)
     if a.replay:
         return do_replay(a.replay)
@@ -120,8 +122,24 @@ def main(argv=None):
         subs = a.only.split(",")
         jobs = [j for j in jobs if any(s in instance_key(j["name"], j["P"]) for s in subs)]
     jobs.sort(key=lambda j: -float(j["budget"]))
+    max_wall = a.max_wall or (1500.0 if tier == "thorough" else 0.0)
+    if tier == "thorough":
+        # the instances the quick tier runs go first, the rest in a seed-dependent order: under the wall cap every run still covers
+        # the quick tier and a different part of the remainder per seed
+        quick_keys = {instance_key(j["name"], j["P"]) for j in list_jobs(prop, "quick", seed)}
+        import hashlib as _h
+        jobs.sort(key=lambda j: (instance_key(j["name"], j["P"]) not in quick_keys,
+                                 _h.sha1(f"{seed}:{instance_key(j['name'], j['P'])}".encode()).hexdigest()))
+
+    def run_or_skip(j):
+        if max_wall and time.time() - t0 > max_wall:
+            return {"property": prop, "lemma": instance_key(j["name"], j["P"]), "verdict": "NOT-RUN", "premise": j.get("premise"),
+                    "bounds": j.get("bounds"), "job": j, "wall": 0.0}
+        return run_job(prop, j, tier, seed)
     with ThreadPoolExecutor(NCPU) as ex:
-        results = list(ex.map(lambda j: run_job(prop, j, tier, seed), jobs))
+        results = list(ex.map(run_or_skip, jobs))
+    not_run = [r for r in results if r.get("verdict") == "NOT-RUN"]
+    results = [r for r in results if r.get("verdict") != "NOT-RUN"]
     rc = 0
     lines = []
     viol = 0
@@ -149,16 +167,17 @@ def main(argv=None):
             rc = max(rc, 3) if rc != 1 else 1
         lines.append(f"  {v:13s} {r['lemma']:60s} paths={r.get('paths', '-')} conf={r.get('confirmed', '-')} ign={r.get('ignored', '-')} "
                      f"unk={r.get('unknown', '-')} q={r.get('solver_queries', '-')} wall={r.get('wall', 0):.1f}s")
-    print(f"{prop} tier={tier} seed={seed}: {len(results)} lemma instances, wall {time.time() - t0:.1f}s")
+    print(f"{prop} tier={tier} seed={seed}: {len(results)} lemma instances, wall {time.time() - t0:.1f}s"
+          + (f"; {len(not_run)} further instances NOT RUN (wall cap {max_wall:.0f}s) - outside this run's claim" if not_run else ""))
     print("\n".join(lines))
     if not a.no_evidence and not a.only:
-        write_evidence(prop, tier, seed, results, time.time() - t0, viol)
+        write_evidence(prop, tier, seed, results, time.time() - t0, viol, not_run=[r["lemma"] for r in not_run])
     elif not a.no_evidence:
-        write_evidence(prop, tier, seed, results, time.time() - t0, viol, partial=a.only)
+        write_evidence(prop, tier, seed, results, time.time() - t0, viol, partial=a.only, not_run=[r["lemma"] for r in not_run])
     return rc
 
 
-def write_evidence(prop, tier, seed, results, wall, viol, partial=None):
+def write_evidence(prop, tier, seed, results, wall, viol, partial=None, not_run=()):
     sym = [r for r in results if not r.get("premise") and r.get("verdict") != "HARNESS-ERROR"]
     prem = [r for r in results if r.get("premise")]
     holds = [r for r in sym if r["verdict"] == "HOLDS"]
@@ -194,6 +213,8 @@ def write_evidence(prop, tier, seed, results, wall, viol, partial=None):
                     "budget_cpu_s": r.get("budget"), "excluded_known_regions": r.get("excluded_regions"),
                     "plugin_rewrites": r.get("plugin_stats"), "unknown_reasons": r.get("unknown_reasons")} for r in sym],
         "inconclusive": [r["lemma"] for r in incon],
+        "not_run_within_wall_cap": {"count": len(not_run), "first": list(not_run)[:40],
+                                    "note": "instances scheduled for this tier but not started before the wall cap: outside this run's claim"},
         "premises_concrete": [{"premise": r["lemma"], "verdict": r["verdict"], "detail": str(r.get("detail"))[:400],
                                "decided_by": "concrete-enumeration (labelled premise, not counted in discharged)"} for r in prem],
         "harness_errors": [{"lemma": r["lemma"], "detail": str(r.get("detail"))[:400]} for r in results
